@@ -275,9 +275,41 @@ def terminal(ctx: Ctx):
               why_bad=f"got {[flow.dump(p.value)[:100] for p in oks]}", construct="ChargeQueueing:terminal-state")
 
 
+def stall_test(ctx: Ctx):
+    """Base.has_available_stall(m) — what arrival at a base consults before handing over to ReserveBase — is true exactly when a stall is
+    free AND the base grants m access (truth table over the free-stall count and the grant)."""
+    fn = ctx.repo.func(BASE, "Base.has_available_stall")
+    ps = [p for p in flow.paths(fn.node) if p.kind == "return"]
+    ctx.require(len(ps) >= 1, "Base.has_available_stall: no return")
+    m = fn.params[1]
+    grant = f"self.membership.grant_access_to_membership({m})"
+    bad = []
+    n = 0
+    for a in range(-1, 3):
+        for g in (False, True):
+            ev = cmp.Evaluator({"self.available_stalls": a}, {grant: g})
+            try:
+                p = cmp.taken_path(ps, ev)
+                got = ev.truth(gd_strip(p.value))
+            except cmp.Unknown as u:
+                raise AnalysisError(f"Base.has_available_stall consults `{flow.dump(u.node)[:60]}`, outside (free stalls, membership)")
+            n += 1
+            if got != (a > 0 and g):
+                bad.append(({"free stalls": a, "access": g}, got))
+    ctx.check(not bad, "D7", "CMP.bounded-counter", "Base.has_available_stall iff a stall is free and the base grants access", fn, why_ok=f"{n} valuations",
+              why_bad=f"differs on {bad[:3]}: arrivals are handed to ReserveBase although no stall can be taken (the vehicle never leaves its travelling activity), or turned away from a free one",
+              construct="Base.has_available_stall:table")
+
+
+def gd_strip(e):
+    from .. import gd as _gd
+    return _gd._strip_bool(e)
+
+
 def helpers(ctx: Ctx):
     """D8: the acquire/release methods are thin wrappers — the contracts of the helpers they rely on."""
     repo = ctx.repo
+    ctx.attempt(stall_test, ctx)
     for qn, none_means in (("station_state_update", "error"), ("station_state_optional_update", "reject")):
         fn = repo.func(SOPS, qn)
         station, cid, op = fn.params[:3]
